@@ -4,6 +4,7 @@ package expressions
 
 import (
 	"math"
+	"reflect"
 
 	"github.com/osteele/liquid/values"
 	nd "github.com/osteele/liquid/zz_verifnd"
@@ -73,7 +74,7 @@ func VerifC01Digits() {
 	nd.Reach("C01.digits")
 }
 
-const c01Kinds = 16
+const c01Kinds = 18
 
 func c01Value(k int) any {
 	switch k {
@@ -108,6 +109,11 @@ func c01Value(k int) any {
 		return map[any]any{"k": 1, 2: "x", true: nil}
 	case 15:
 		return map[any]any{}
+	case 16:
+		// a comparable struct type whose interface field holds an uncomparable value
+		return struct{ X any }{map[string]any{"a": 1}}
+	case 17:
+		return [1]any{[]int{1}}
 	default:
 		return struct {
 			A int
@@ -130,17 +136,38 @@ func VerifC01Operands() {
 	nd.Reach("C01.operands")
 }
 
-// VerifC01Ranges: a range with arbitrary integer endpoints never panics when built, sized or indexed
-// (its length is bounded here: a huge range legitimately takes time proportional to its length).
+// VerifC01Ranges: a range with arbitrary 64-bit endpoints never panics when built, sized, indexed or
+// converted to an array. Short ranges (<= 5 elements, endpoints anywhere up to the ends of the int range)
+// are materialised exactly; ranges of more than 2^24 elements (including those whose element count
+// does not fit an int) must be refused with an error instead of being allocated. Lengths in between
+// take time and memory proportional to the range the template spells out and are outside the bound.
 func VerifC01Ranges() {
-	// endpoints within +-2^40: a range longer than the address space is outside the claim
 	lo, hi := nd.Int(), nd.Int()
-	nd.Assume(lo > -(1<<40) && lo < 1<<40 && hi > -(1<<40) && hi < 1<<40)
-	nd.Assume(hi < lo || hi-lo <= 4)
+	d := hi - lo // wraps when the true difference exceeds MaxInt
 	r := values.NewRange(lo, hi)
 	n := r.Len()
-	nd.Assert(n >= 0 && n <= 5, "range-length-non-negative")
-	arr := r.AsArray()
-	nd.Assert(len(arr) == n, "range-array-length")
-	nd.Reach("C01.ranges")
+	if nd.Choice(2) == 0 {
+		nd.Assume(hi < lo || (d >= 0 && d <= 4))
+		nd.LoopBound(40) // five elements: any loop running longer does not terminate in proportional time
+		if hi < lo {
+			nd.Assert(n == 0, "range-length-empty")
+		} else {
+			nd.Assert(n == d+1, "range-length-exact")
+		}
+		arr := r.AsArray()
+		nd.Assert(len(arr) == n, "range-array-length")
+		if n > 0 {
+			nd.Assert(arr[0] == any(lo) && arr[n-1] == any(hi), "range-array-ends")
+		}
+		conv, err := values.Convert(r, reflect.TypeOf([]any{}))
+		nd.Assert(err == nil && len(conv.([]any)) == n, "range-convert-short")
+		nd.Reach("C01.ranges.short")
+		return
+	}
+	nd.Assume(hi >= lo && (d < 0 || d > 1<<24))
+	nd.Assert(n > 1<<24, "range-length-large-positive")
+	conv, err := values.Convert(r, reflect.TypeOf([]any{}))
+	nd.Assert(err != nil && conv == nil, "range-convert-huge-refused")
+	nd.Assert(r.Index(0) == any(lo), "range-index-0")
+	nd.Reach("C01.ranges.huge")
 }
